@@ -1707,8 +1707,11 @@ class PyCdlib:
             linked_inodes.add(id(ino))
 
         if self.enhanced_vd is not None:
+            # The enhanced volume descriptor describes the same root directory
+            # as the primary one, which may have grown in the meantime.
             loc = self.pvd.root_directory_record().extent_location()
             self.enhanced_vd.root_directory_record().set_data_location(loc, loc)
+            self.enhanced_vd.root_directory_record().set_data_length(self.pvd.root_directory_record().get_data_length())
 
         if self.udf_anchors:
             self.udf_anchors[-1].set_extent_location(current_extent,
